@@ -9,7 +9,7 @@ from .. import smc_common as sc
 
 ID = "C07"
 LEVEL = "exploration"
-BUDGET = {"quick": 1200, "thorough": 90000}
+BUDGET = {"quick": 2000, "thorough": 90000}
 SHARDS = {"quick": 8, "thorough": 16}
 RULE = (
     "case = adaptive SMC run (table proposal/likelihood => arbitrary generated log-weight population; frozen or "
